@@ -316,7 +316,9 @@ class Ref:
             if isinstance(v, float):
                 if v != v or v in (float("inf"), float("-inf")):
                     raise RefUnsupported("non-finite float constant")
-                return Num("double", z3.RealVal(repr(v)) if "e" not in repr(v) and "E" not in repr(v) else z3.RealVal(str(__import__("fractions").Fraction(v))))
+                # the literal denotes the decimal number repr() prints (the C++ side reads its literal text the same way): the exact
+                # decimal on both sides, so that two texts are equal as reals iff they are the same decimal
+                return Num("double", z3.RealVal(str(__import__("fractions").Fraction(repr(v)))))
             if isinstance(v, str):
                 return StrV(v)
             raise RefUnsupported(f"constant {v!r}")
@@ -444,6 +446,8 @@ class Ref:
             r = self.ev.call_method(self.ctx, v.cls, ms, v.oid, nums)
             if isinstance(r, CollV):
                 return RSeq(list(r.slots))
+            if isinstance(r, Num) and ms.tree_type:
+                r = Num(r.kind, r.t, tk=ms.tree_type)
             return r
         if isinstance(v, dict) and not is_call:
             if name in v:
@@ -487,6 +491,11 @@ class Ref:
                 if not all(isinstance(x, Num) for x in a):
                     raise RefUnsupported("math function on non-numbers")
                 self.features.add("math:" + name)
+                if name == "abs" and len(a) == 1 and a[0].kind in ("int", "bool"):
+                    # python: abs of an int (or bool) is an int
+                    from .model import toint
+                    x = toint(a[0])
+                    return Num("int", z3.If(x >= 0, x, -x))
                 return mathfn.apply(self.ev, name, a)
             raise RefUnsupported(f"function {name}")
         if isinstance(f, ast.Attribute):
@@ -510,7 +519,7 @@ class Ref:
         for sg, v in seq.slots:
             cols = self.columns(v)
             rows.append((sg, cols))
-            sch = [(k, *shape(val)) for k, val in cols.items()]
+            sch = [(k, *shape(val, nested_tk="nested_tree_type_ignored" not in self.patches)) for k, val in cols.items()]
             if schema is None:
                 schema = sch
         return rows, schema
@@ -544,8 +553,8 @@ class Ref:
         return out
 
 
-def shape(v):
-    "(depth, kind) of a column value"
+def shape(v, nested_tk=True):
+    "(depth, kind) of a column value; nested_tk=False: a declared tree_type is honoured for scalars and 1-D arrays only (known finding)"
     d = 0
     while isinstance(v, (RSeq, CollV)):
         d += 1
@@ -554,7 +563,7 @@ def shape(v):
             return (d, None)
         v = inner[0]
     if isinstance(v, Num):
-        return (d, v.kind)
+        return (d, "tree:" + v.tk if getattr(v, "tk", None) and (nested_tk or d <= 1) else v.kind)
     if isinstance(v, EnumV):
         return (d, "enum")
     return (d, type(v).__name__)
